@@ -179,7 +179,21 @@ func c05cCatchup(w *vWorld, id int, alteredFirst bool, live bool) bool {
 		vmust(err)
 	}
 	if !live {
-		w.deliver(gcA.MetadataStore(), logHashes(gcB.MetadataStore()))
+		// the store emits the events of delivered entries asynchronously; the catch-up pass alone is exercised only
+		// when they have all been emitted before the activation subscribes
+		sub, err := gcA.MetadataStore().EventBus().Subscribe(new(*protocoltypes.GroupMetadataEvent))
+		vmust(err)
+		hs := logHashes(gcB.MetadataStore())
+		w.deliver(gcA.MetadataStore(), hs)
+		timeout := time.After(60 * time.Second)
+		for n := 0; n < len(hs); n++ {
+			select {
+			case <-sub.Out():
+			case <-timeout:
+				panic("HARNESS: the events of delivered entries were not emitted within 60s")
+			}
+		}
+		sub.Close()
 	}
 	vmust(gcA.ActivateGroupContext(nil))
 	if live {
